@@ -385,18 +385,21 @@ fn hang_secs() -> f64 {
 
 /// Executes a single case in a fresh process. Returns (violation json, trace hash).
 pub fn run_case_in_child(check_id: &str, case: &Value, hang_cpu_secs: f64) -> Result<(Option<Value>, String), String> {
+	run_case_in_child_opts(check_id, case, hang_cpu_secs, false)
+}
+
+pub fn run_case_in_child_opts(check_id: &str, case: &Value, hang_cpu_secs: f64, ignore_known: bool) -> Result<(Option<Value>, String), String> {
 	static COUNTER: AtomicU64 = AtomicU64::new(0);
 	let n = COUNTER.fetch_add(1, Ordering::SeqCst);
 	let path = tmp_dir().join(format!("case-{}-{}.json", std::process::id(), n));
 	std::fs::write(&path, serde_json::to_vec(&json!({"check": check_id, "case": case})).unwrap())
 		.map_err(|e| e.to_string())?;
-	let child = Command::new(self_exe())
-		.arg("run-case")
-		.arg(&path)
-		.stdout(Stdio::piped())
-		.stderr(Stdio::piped())
-		.spawn()
-		.map_err(|e| e.to_string())?;
+	let mut cmd = Command::new(self_exe());
+	cmd.arg("run-case").arg(&path).stdout(Stdio::piped()).stderr(Stdio::piped());
+	if ignore_known {
+		cmd.env("KVERIF_IGNORE_KNOWN", "1");
+	}
+	let child = cmd.spawn().map_err(|e| e.to_string())?;
 	let stop = AtomicBool::new(false);
 	let outcome = supervise(child, hang_cpu_secs, &stop);
 	let _ = std::fs::remove_file(&path);
@@ -466,7 +469,7 @@ pub fn replay_witness(check_id: &str, finding: &Finding) -> Result<Option<Value>
 	let path = verif_root().join(&finding.witness);
 	let text = std::fs::read_to_string(&path).map_err(|e| format!("{}: {e}", path.display()))?;
 	let v: Value = serde_json::from_str(&text).map_err(|e| e.to_string())?;
-	let (viol, _) = run_case_in_child(check_id, &v["case"], 5.0)?;
+	let (viol, _) = run_case_in_child_opts(check_id, &v["case"], 5.0, true)?;
 	Ok(viol)
 }
 
@@ -722,7 +725,7 @@ pub fn replay_file(check_lookup: &dyn Fn(&str) -> Option<Box<dyn Check>>, path: 
 		eprintln!("harness error: unknown check {id}");
 		return 2;
 	}
-	match run_case_in_child(id, &doc["case"], hang_secs()) {
+	match run_case_in_child_opts(id, &doc["case"], hang_secs(), true) {
 		Ok((Some(v), h)) => {
 			eprintln!("reproduced: {v} (trace {h})");
 			println!("VIOLATION property={id} replay={}", path.display());
